@@ -22,8 +22,8 @@ RULE = (
     'profile restriction, operation) tuples reached'
 )
 ASSUMPTIONS = ['re-adding a name that is still registered and defaultProfiles naming an unregistered profile are API misuse and not generated']
-MIN_EVENTS = {'quick': {'oracle.validate-agrees': 800000, 'oracle.step': 2500, 'oracle.add-remove-restores': 250, 'oracle.unknown-removal': 150, 'histories': 500, 'oracle.blind-replacement': 500, 'oracle.default-as-string': 120},
-              'thorough': {'oracle.validate-agrees': 15000000, 'oracle.step': 60000, 'oracle.add-remove-restores': 6000, 'oracle.unknown-removal': 4000, 'histories': 12000, 'oracle.blind-replacement': 12000, 'oracle.default-as-string': 2500}}
+MIN_EVENTS = {'quick': {'oracle.validate-agrees': 800000, 'oracle.step': 2500, 'oracle.add-remove-restores': 250, 'oracle.unknown-removal': 150, 'histories': 500, 'oracle.blind-replacement': 500, 'oracle.default-as-string': 120, 'oracle.refused-add': 100},
+              'thorough': {'oracle.validate-agrees': 15000000, 'oracle.step': 60000, 'oracle.add-remove-restores': 6000, 'oracle.unknown-removal': 4000, 'histories': 12000, 'oracle.blind-replacement': 12000, 'oracle.default-as-string': 2500, 'oracle.refused-add': 2000}}
 
 CUSTOM = {
     'P1': ({'x-one': '{int}|a|b'}, None),
@@ -45,6 +45,10 @@ VALUES = ['red', 'foo', 'baz', 'black', '1', '5', 'wavy', 'solid', 'yes', 'qx', 
 BATTERY = [(n, v) for n in NAMES for v in VALUES if (len(n) + len(v)) % 2 == 0 or n.startswith('x-')]
 # properties only 'CSS Fonts Module Level 3' defines (its name is part of the @font-face profile's name), and one only P10 defines
 BATTERY += [('font-size-adjust', '0.5'), ('font-size-adjust', 'none'), ('font-size-adjust', 'red'), ('font-stretch', 'condensed'), ('font-stretch', '1'), ('x-ten', 'ten'), ('x-ten', '7'), ('x-ten', 'a')]
+
+
+BROKEN = [({'x-br': '{nomacro}'}, None), ({'x-br': 'a|{nomacro}', 'x-ok': 'b'}, {'x-mine': 'q'}), ({'x-br': '{int}|{nomacro}'}, {'int': 'q'}),
+          ({'x-br': '{x-mycolor}|{nomacro}'}, {'x-mycolor': 'zz'}), ({'color': '{nomacro}'}, None)]
 
 
 def signature(reg):
@@ -131,7 +135,7 @@ def run_history(ctx, cssutils, rng, use_global=False, ops_in=None, raising_in=No
             if script is not None:
                 op = script[step]
             else:
-                kinds = ['add'] * 4 + ['add-many'] * 2 + ['remove'] * 3 + ['remove-unknown', 'default', 'default-none', 'add-remove', 'default-detour', 'default-string', 'add-remove', 'remove-unknown']
+                kinds = ['add'] * 4 + ['add-many'] * 2 + ['remove'] * 3 + ['remove-unknown', 'default', 'default-none', 'add-remove', 'default-detour', 'default-string', 'add-remove', 'remove-unknown', 'add-broken']
                 if not use_global:
                     kinds += ['remove-builtin', 'readd-builtin', 'remove-all-readd', 'remove-all-customs']
                 k = rng.choice(kinds)
@@ -148,6 +152,8 @@ def run_history(ctx, cssutils, rng, use_global=False, ops_in=None, raising_in=No
                     op.append(rng.sample(list(reg.profiles), rng.randint(1, min(3, len(reg.profiles)))) if reg.profiles else [])
                     if k == 'default-detour' and not op[1]:
                         continue
+                elif k == 'add-broken':
+                    op.append(rng.randrange(len(BROKEN)))
                 elif k == 'default-string':
                     # round 8: the restriction given as one plain name (documented: "a single or a list of profile names"), with a liking for names that contain another one
                     cands = [p for p in reg.profiles if any(q != p and q in p for q in reg.profiles)]
@@ -168,7 +174,7 @@ def run_history(ctx, cssutils, rng, use_global=False, ops_in=None, raising_in=No
             ops.append(op)
             k = op[0]
             ctx.count('op.' + k)
-            before = signature(reg) if k in ('add-remove', 'remove-unknown') else None
+            before = signature(reg) if k in ('add-remove', 'remove-unknown', 'add-broken') else None
             if k == 'add':
                 props, macros = CUSTOM[op[1]]
                 pd, md = dict(props), (dict(macros) if macros else None)
@@ -204,6 +210,21 @@ def run_history(ctx, cssutils, rng, use_global=False, ops_in=None, raising_in=No
                 d = diff_sig(before, after)
                 if d:
                     ctx.violation('law.add-remove-restores', dict(case, failed_at=step), d)
+                    return
+            elif k == 'add-broken':
+                # round 8: a definition the registry cannot compile (unknown macro, alone or beside macros of its own that shadow known ones)
+                # is refused - and a refused profile is not registered, in no part
+                props, macros = BROKEN[op[1]]
+                ctx.count('oracle.refused-add')
+                try:
+                    reg.addProfile('BROKEN', dict(props), dict(macros) if macros else None)
+                    ctx.violation('law.refused-add-changes-nothing', dict(case, failed_at=step), {'what': 'accepted'})
+                    return
+                except Exception:
+                    pass
+                d = diff_sig(before, signature(reg))
+                if d:
+                    ctx.violation('law.refused-add-changes-nothing', dict(case, failed_at=step), d)
                     return
             elif k == 'remove-unknown':
                 ctx.count('oracle.unknown-removal')
